@@ -5,6 +5,7 @@ ID=$1; shift
 S=$(mktemp -d /tmp/scr_XXXXXX)
 git -C /repo worktree add -q --detach $S/repo HEAD || exit 9
 P=$ID
+[ -f "$P" ] && P=$(realpath "$P")
 [ -f "$P" ] || { P=/verif/seeded/$ID/patch.diff; [ -f /verif/seeded/$ID/patch_rebased.diff ] && P=/verif/seeded/$ID/patch_rebased.diff; }
 if ! git -C $S/repo apply $P 2>/dev/null; then echo "$ID patch-does-not-apply"; git -C /repo worktree remove --force $S/repo; rm -rf $S; exit 8; fi
 cd /verif
